@@ -458,6 +458,11 @@ def t_termination(ctx, cfgs):
                         r.viol("T:loop:%s" % root_fn(b.name), "loop advances an iterator but never leaves on exhaustion", file=b.file, line=b.blocks[hdr]["term"].get("line"))
                 elif root_fn(b.name) in loop_table:
                     r.inst(site, loop_table[root_fn(b.name)][:200], cfg=cfg)
+                elif (M.owner_of(prog, b.name) or True) and len(prog._callers.get(root_fn(b.name), ())) == 1 and next(iter(prog._callers[root_fn(b.name)])) in loop_table \
+                        and not getattr(prog.bodies.get(root_fn(b.name)), "is_pub", True):
+                    # the loop moved into a private helper called only from the function whose loop is discharged: same loop, same argument
+                    own_ = next(iter(prog._callers[root_fn(b.name)]))
+                    r.inst(site, ("(extracted from %s) " % own_.split("::")[-1] + loop_table[own_])[:200], cfg=cfg)
                 else:
                     r.viol("T:loop:%s" % root_fn(b.name), "loop without a consumable iterator and without recorded progress argument (line %s) [cfg %s]" % (b.blocks[hdr]["term"].get("line"), cfg), file=b.file, line=b.blocks[hdr]["term"].get("line"))
     return r
